@@ -314,7 +314,82 @@ def shard_random_combo(desc, rec):
         check_arg(rec, name, fn, req, a, f"ndarray{tuple(shape)}:{dt}:r", exp)
 
 
-SHARDS = {"grid": shard_grid, "coupled": shard_coupled, "combo": shard_random_combo}
+def _compact(rec, tag):
+    """the refusal matrix in small: per validated argument the exact shape (accept), two same-size other shapes and None"""
+    for name, (fn, req) in TARGETS.items():
+        check_arg(rec, name, fn, req, good(req, "float32" if not name.startswith("CameraViewPort") else "int32"),
+                  f"ndarray{tuple(req)}:exact:{tag}", "accept")
+        for shape in same_size_shapes(tuple(req))[:2] + [tuple(req) + (2,)]:
+            check_arg(rec, name, fn, req, arr(shape, "float32", None), f"ndarray{tuple(shape)}:{tag}", "refuse")
+        check_arg(rec, name, fn, req, None, f"None:{tag}", "refuse")
+    a, f = arr((4, 3), "float32", None), arr((4, 2), "float32", None)
+    check_arg(rec, "ForceTorqueTrack(application_point,force,torque)", lambda x: tdfForce3D.ForceTorqueTrack("l", *x),
+              "(n,3) x3", (a, f, a), f"(4,3)/(4,2)/(4,3):{tag}", "refuse")
+    check_arg(rec, "ForceTorqueTrack(application_point,force,torque)", lambda x: tdfForce3D.ForceTorqueTrack("l", *x),
+              "(n,3) x3", (a, a, a), f"(4,3)x3:{tag}", "accept")
+    rec.count("c19:compact-matrix-after-event")
+
+
+def shard_history(desc, rec):
+    """The answer for one argument must not depend on what happened before: (a) the SAME array object is offered twice,
+    reshaped in place in between (valid -> invalid and invalid -> valid); (b) the compact refusal matrix is repeated
+    after every kind of earlier event: refused constructor calls, successful and FAILED decodes (truncated at every
+    eighth byte, unknown format code) of every block kind, successful encodes."""
+    rng = random.Random(desc["seed"] * 107 + 5)
+    for name, (fn, req) in TARGETS.items():
+        dt = "int32" if name.startswith("CameraViewPort") else "float32"
+        for other in same_size_shapes(tuple(req)):
+            a = arr(tuple(req), dt, rng).copy()
+            check_arg(rec, name, fn, req, a, f"ndarray{tuple(req)}:first-use", "accept")
+            a.shape = other
+            check_arg(rec, name, fn, req, a, f"same-object-reshaped-in-place-to{other}", "refuse")
+            a.shape = tuple(req)
+            check_arg(rec, name, fn, req, a, f"same-object-reshaped-back-to{tuple(req)}", "accept")
+            b = arr(other, dt, rng).copy()
+            check_arg(rec, name, fn, req, b, f"ndarray{other}:first-use-invalid", "refuse")
+            b.shape = tuple(req)
+            check_arg(rec, name, fn, req, b, f"same-object-made-valid{tuple(req)}", "accept")
+            rec.count("c19:same-object-offered-again")
+    _compact(rec, "start")
+    for kind in lib.KINDS:
+        fmts = gen.FORMATS[kind] if hasattr(gen, "FORMATS") else [None]
+        for fmt in fmts:
+            spec = gen.small_spec(kind, nitems=2, nframes=4, fmt=fmt, seed=desc["seed"]) if kind in lib.RLE_KINDS \
+                else gen.gen_spec(random.Random(desc["seed"] * 13 + len(kind)), kind, fmt=fmt)
+            try:
+                obj = lib.build(spec)
+                data = lib.enc(obj)
+                f = lib.fmt_of(obj)
+            except Exception as e:      # generator / build trouble is not what this shard judges
+                rec.count("c19:history:build-skipped")
+                continue
+            rec.count("c19:history:encode-ok")
+            _compact(rec, f"after-encode:{kind}")
+            lib.dec(kind, f, data)
+            rec.count("c19:history:decode-ok")
+            _compact(rec, f"after-decode:{kind}")
+            failed = 0
+            for cut in sorted(set(list(range(0, len(data), max(8, len(data) // 24))) + [len(data) - 1])):
+                try:
+                    lib.dec(kind, f, data[:cut])
+                except BaseException:
+                    failed += 1
+            for badfmt in (0, 99, -1):
+                try:
+                    lib.dec(kind, badfmt, data)
+                except BaseException:
+                    failed += 1
+            rec.count("c19:history:failed-decodes", failed)
+            _compact(rec, f"after-failed-decodes:{kind}")
+    for name, (fn, req) in list(TARGETS.items()):
+        for o in (None, "abc", arr((5,), "float32", rng)):
+            try:
+                fn(o)
+            except BaseException:
+                rec.count("c19:history:refused-constructor-calls")
+    _compact(rec, "after-refused-constructors")
+
+SHARDS = {"grid": shard_grid, "coupled": shard_coupled, "combo": shard_random_combo, "history": shard_history}
 
 
 def run_shard(desc, rec):
